@@ -1164,6 +1164,14 @@ func resolve(v ssa.Value) ssa.Value {
 					continue
 				}
 				return v
+			case *ssa.FieldAddr:
+				// a field of a local struct that is written exactly once (a struct literal used to carry several values
+				// around: `snap := waitSnapshot{state: s, ...}; ... snap.state`)
+				if fv := localStructField(a, 0); fv != nil {
+					v = fv
+					continue
+				}
+				return v
 			default:
 				return v
 			}
@@ -2510,4 +2518,63 @@ func renamedFieldsOf(pkgPath, typ string, st *types.Struct) map[string]string {
 		}
 	}
 	return out
+}
+
+// localStructField: fa addresses field f of a local struct variable whose address does not escape; the value that field
+// holds, when it is determined: the single store to that field, or - when the variable is only ever assigned as a whole
+// from another such local - the same field of that one.
+func localStructField(fa *ssa.FieldAddr, depth int) ssa.Value {
+	if depth > 4 {
+		return nil
+	}
+	a, ok := fa.X.(*ssa.Alloc)
+	if !ok || a.Referrers() == nil {
+		return nil
+	}
+	var fieldStores, wholeStores []*ssa.Store
+	for _, r := range *a.Referrers() {
+		switch x := r.(type) {
+		case *ssa.FieldAddr:
+			for _, rr := range *x.Referrers() {
+				switch y := rr.(type) {
+				case *ssa.Store:
+					if y.Addr == ssa.Value(x) {
+						if x.Field == fa.Field {
+							fieldStores = append(fieldStores, y)
+						}
+					} else {
+						return nil // the field's address is stored somewhere
+					}
+				case *ssa.UnOp, *ssa.DebugRef, *ssa.FieldAddr, *ssa.IndexAddr:
+				default:
+					if x.Field == fa.Field {
+						return nil // address of this field handed to a call etc.
+					}
+				}
+			}
+		case *ssa.Store:
+			if x.Addr == ssa.Value(a) {
+				wholeStores = append(wholeStores, x)
+			} else {
+				return nil
+			}
+		case *ssa.UnOp, *ssa.DebugRef:
+		default:
+			return nil // escapes (call argument, closure capture, interface ...)
+		}
+	}
+	switch {
+	case len(fieldStores) == 1 && len(wholeStores) == 0:
+		return fieldStores[0].Val
+	case len(fieldStores) == 0 && len(wholeStores) == 1:
+		src := wholeStores[0].Val
+		if u, ok := src.(*ssa.UnOp); ok && u.Op == token.MUL {
+			if b, ok := u.X.(*ssa.Alloc); ok {
+				return localStructField(&ssa.FieldAddr{X: b, Field: fa.Field}, depth+1)
+			}
+		}
+		// a struct value computed elsewhere (call result, phi): the field of that value
+		return &ssa.Field{X: src, Field: fa.Field}
+	}
+	return nil
 }
